@@ -339,7 +339,8 @@ func (x *Exec) frameObligations(out, entry *State, penv *SpecEnv) {
 				continue
 			}
 			r := x.fresh("fr", SInt)
-			conds := []Term{Le(IntLit(0), r), Le(r, entry.wm)}
+			// (objects are numbered from 1: 0 is nil - also the backing array of a nil slice - and has no contents)
+			conds := []Term{Le(IntLit(1), r), Le(r, entry.wm)}
 			for _, rr := range refs {
 				conds = append(conds, Not(Eq(r, rr)))
 			}
